@@ -60,6 +60,10 @@ Fixpoint join (sep : bytes) (xs : list bytes) : bytes :=
   end.
 
 (* what the application and the peer can observe of a reading endpoint *)
+(* key of the decompressor-progress table for "the stream ended here" (the inflater is told about the
+   error and hands out everything it has decoded), as opposed to "more of the message follows" *)
+Definition at_eof (d : bytes) : bytes := d ++ [256].
+
 Inductive rerr :=
 | EEof                                  (* *CloseError{1006, "unexpected EOF"}: the stream ended *)
 | EProto                                (* errors.New("websocket: ...") after handleProtocolError *)
